@@ -6,6 +6,7 @@ Line-protocol driver for C10.  First word selects the sub-model:
 
   q <protected-hex> <in-hex>…       Quoter::new(b"", protected).requote(in) for each input
                                     → `none` | `some:<hex>` per input, or `panic-new`
+  u <path-hex>…                     Url::new(uri).path() (DEFAULT_QUOTER, protected `%/+`)
   m <F|P> <pats> <path-hex>…        ResourceDef::new / ::prefix; per path `is/find/capture`
   b <F|P> <pats> <val-hex>…         resource_path_from_iter, then capture on the built path
   bm <F|P> <pats> <name>=<val>…     resource_path_from_map
@@ -166,9 +167,18 @@ def runChain (ws : List String) : String :=
           | _ => ("bad-case" :: acc).reverse
       joinWith " " (go { path := path } steps [])
 
+/-- `u <path>…` : `Url::new(uri).path()` = `DEFAULT_QUOTER.requote(path)` or the path itself
+(`from_utf8_lossy` is the identity on the generated inputs: escapes decode to ASCII) -/
+def runUrl (inputs : List String) : String :=
+  joinWith " " (inputs.map fun w =>
+    match bytesOfHex w with
+    | some i => hexOrDash ((defaultQuoter.requote i).getD i)
+    | none => "bad-case")
+
 def run (line : String) : String :=
   match words line with
   | "q" :: prot :: inputs => runQuoter prot inputs
+  | "u" :: inputs => runUrl inputs
   | "m" :: flag :: rest => runMatch flag rest
   | "b" :: flag :: rest => runBuild flag rest
   | "bm" :: flag :: rest => runBuildMap flag rest
